@@ -31,7 +31,7 @@ def Access.allowed (a : Access) (acct : Nat) : Bool :=
   match a.deny, a.allow with
   | some d, none => !d.contains acct
   | none, some al => al.contains acct
-  | some d, some al => if al.contains acct then true else if d.contains acct then false else false
+  | some d, some al => if d.contains acct then false else al.contains acct     -- denied entries take precedence (as repaired)
   | none, none => true
 
 structure Request where
